@@ -16,7 +16,7 @@ META = {
         'Decided (pydl/pydlspec2d/spec2d.py combine1fiber, aesthetics; spec1d.py preprocess_spectra): C11.DTYPE-MIX - no '
         'bitwise operator combines a signed integer array allocated in the function with a numpy uint64 scalar (sdss_flagval) '
         'without an explicit conversion (under NumPy 2 this raises TypeError, so the function would not return at all); '
-        'C11.EMPTY-AGG - an aggregate (mean/min/max/median) over A[M] with M a comparison-derived boolean mask, or over '
+        'C11.NONE-DEREF - the optional objivar (default None) is dereferenced only on paths where it is known not to be None (may-be-None dataflow with branch refinement); C11.EMPTY-AGG - an aggregate (mean/min/max/median) over A[M] with M a comparison-derived boolean mask, or over '
         'E.nonzero()[0], is dominated by a non-emptiness test of that selection (else NaN flux or ValueError); C11.SCRUB - the '
         'isfinite scrub of (newflux, newivar) follows every spline/interpolation write to them and afterwards flux is only '
         'rewritten by aesthetics(); the no-good-pixel exit returns the zero-initialised arrays; C11.PER-EXPOSURE - the output '
@@ -24,7 +24,7 @@ META = {
         'wavelength; C11.SCALE-FREE - no decision inside combine1fiber compares a flux-scaled quantity with an absolute tolerance or identifies two grids by a tolerance test, and the inverse-variance interpolation runs for every overlapping exposure; C11.ZSHIFT - in preprocess_spectra the wavelength argument of combine1fiber is rowloglam - logshift[iobj] '
         'with logshift = log10(1 + zfit), computed afresh for every object (no in-place accumulation). NOT decided: ivar >= 0, '
         'exact zeros outside good neighbours, identity on the same grid, scaling laws, interpolation bound (numerical).'),
-    'floors': {'C11.DTYPE-MIX': 5, 'C11.EMPTY-AGG': 6, 'C11.SCRUB': 4, 'C11.PER-EXPOSURE': 1, 'C11.ZSHIFT': 2, 'C11.SCALE-FREE': 4},
+    'floors': {'C11.DTYPE-MIX': 5, 'C11.EMPTY-AGG': 6, 'C11.SCRUB': 4, 'C11.PER-EXPOSURE': 1, 'C11.ZSHIFT': 2, 'C11.SCALE-FREE': 4, 'C11.NONE-DEREF': 1},
     'trusted_base': ['NumPy 2 (NEP 50): a signed integer array and a numpy.uint64 scalar have no common integer type for bitwise ufuncs'],
 }
 
@@ -348,7 +348,37 @@ def check_scale_free(ctx, repo):
                   msg='the inverse-variance interpolation is skipped under `%s`' % extra, construct='conditional ivar interpolation %s' % extra)
 
 
+def check_none_deref(ctx, repo):
+    """`objivar` is optional (default None): every dereference must be on a path where it is known not to be None."""
+    from ..nullness import analyse
+    f = repo.func(SPEC2D, 'combine1fiber')
+    fa = FA(f)
+    hits = analyse(fa, names=['objivar'])
+    # a test on an alias bound only to `objivar` (or None) is a test on objivar itself
+    aliases = set()
+    for st in walk_local(f.node):
+        if isinstance(st, ast.Assign) and isinstance(st.targets[0], ast.Name) and isinstance(st.value, ast.Name) and st.value.id == 'objivar':
+            nm = st.targets[0].id
+            others = [s2 for s2 in walk_local(f.node) if isinstance(s2, ast.Assign) and isinstance(s2.targets[0], ast.Name) and s2.targets[0].id == nm and s2 is not st]
+            if all(isinstance(s2.value, ast.Constant) and s2.value.value is None for s2 in others):
+                aliases.add(nm)
+    real = []
+    for node, nm, kind, ln in hits:
+        guarded = any(isinstance(a, ast.If) and any(src(a.test) == '%s is not None' % al for al in aliases) and
+                      any(node in list(ast.walk(b)) for b in a.body) for a in ancestors(node))
+        if not guarded:
+            real.append((node, kind, ln))
+    derefs = [n for n in walk_local(f.node) if isinstance(n, (ast.Attribute, ast.Subscript)) and isinstance(n.value, ast.Name) and n.value.id == 'objivar']
+    ctx.check('C11.NONE-DEREF', not real, f, real[0][0] if real else f.node,
+              'every one of the %d dereferences of the optional `objivar` lies on a path where it is not None' % len(derefs),
+              msg='combine1fiber dereferences the optional argument objivar (%s at line %s: `%s`) on a path where it may still be None: the documented '
+                  'call without inverse variance raises AttributeError instead of returning a result'
+                  % (real[0][1] if real else '', real[0][2] if real else '', src(real[0][0])[:40] if real else ''),
+              construct='objivar may be None at: %s' % '; '.join('%s `%s`' % (k, src(n)[:30]) for n, k, l in real[:3]))
+
+
 def run(ctx):
+    check_none_deref(ctx, ctx.repo)
     check_scale_free(ctx, ctx.repo)
     n = check_dtype_mix(ctx, ctx.repo)
     ctx.need(n >= 5, 'combine1fiber: fewer typed bitwise sites than confirmed by hand')
